@@ -925,9 +925,47 @@ def loop_rule(ctx, crate, scope):
                 continue
             ok, detail, np = stutter_free(body, h, blocks, exits, allow=ALLOW.get(check))
             ctx.paths_enumerated += np
+            if ok and check == "fixpoint-guard":
+                ok, detail = fixpoint_guarded(body, h, blocks, exits)
             ctx.ob("R05-2", body.path, "loop [%s] cannot stutter (%s)" % (desc, reason), ok,
                    key="R05-2|%s|stutter|%s" % (body.path, desc), where=body.loc(h), crate=crate.kind, detail=detail)
     return n
+
+
+def fixpoint_guarded(body, h, blocks, exits):
+    """rewrite-until-nothing-changes loops (`while gate(x) { x = rewrite(x) }`): the stutter rule takes the result
+    of a call for a change, which a rewriter that returns its argument unchanged is not.  Demand the explicit
+    test: every in-loop assignment `x = v` to a local the exit conditions read is dominated, inside the loop,
+    by the fact `v == x` is false (so a cycle that changes nothing leaves the loop instead)."""
+    from .c02 import dom_facts
+    locs = {l for l in exit_condition_locals(body, blocks, exits) if l in body.names}
+    n = 0
+    for bi, si, st in body.stmts():
+        if bi not in blocks or st["k"] != "assign" or st["place"]["p"] or st["place"]["l"] not in locs:
+            continue
+        l = st["place"]["l"]
+        v = body.expand_vars(strip_sites(body.rvalue_expr(st["rv"])))
+        if v[0] == "var" and v[1] == l:
+            continue
+        n += 1
+        guarded = False
+        for a, val in dom_facts(body, bi, within=blocks):
+            a2 = strip_sites(a)
+            if a2[0] == "call" and last_seg(a2[1]) in ("eq", "ne") and len(a2[2]) == 2:
+                want = last_seg(a2[1]) == "ne"
+                if val is not want:
+                    continue
+                x, y = (body.expand_vars(mir.peel(z)) for z in a2[2])
+                olds = [z for z in (x, y) if mir.root_local_expr(z) == l and z[0] == "var"]
+                news = [z for z in (x, y) if z == v]
+                if olds and news:
+                    guarded = True
+        if not guarded:
+            return False, "assignment to `%s` at %s is not guarded by a test that the new value differs from the old" % (
+                body.names.get(l), body.loc(bi))
+    if n == 0:
+        return False, "no assignment to an exit-condition local found in the loop"
+    return True, None
 
 
 def loop_desc(body, h, blocks, exits):
